@@ -18,7 +18,8 @@ def run(d):
     m = re.search(r"exit=(\d+)", out)
     res = {"seeded": name, "property": pid, "patch": os.path.basename(patch), "check_exit": int(m.group(1)) if m else None,
            "violation_lines": len(viol), "with_concrete_replay": len(with_input),
-           "verdict": "caught with a concrete replay" if with_input else ("caught (no-failing-input-found)" if viol else "NOT caught"),
+           "verdict": "patch does not apply to the current head (needs porting)" if "PATCH-FAILED" in out else
+                      "caught with a concrete replay" if with_input else ("caught (no-failing-input-found)" if viol else "NOT caught"),
            "summary_line": next((l for l in out.splitlines() if re.match(r"C\d+ (quick|thorough):", l)), "")}
     i = out.find("--- replays/")
     if i >= 0:
